@@ -165,6 +165,32 @@ class A2:
                     calls.append((cb, args))
         return ev, calls
 
+    def closures_under(self, b):
+        """closures written in `b` or in a crate-local function `b` calls (a slot function that hands its work to a shared
+        private helper whose body is the `with_mut` closure); closures whose creating function is a slot function or a
+        release primitive of its own are accounted there"""
+        slot_dids = set()
+        for slots in self.vts.values():
+            for s_ in slots.values():
+                if s_:
+                    d = s_.get("did") if s_.get("did") is not None else (s_.get("res") or {}).get("did")
+                    slot_dids.add(d)
+        out, seen, todo = [], set(), [b]
+        while todo:
+            x = todo.pop()
+            if x.did in seen:
+                continue
+            seen.add(x.did)
+            out.extend(c for c in self.facts.children.get(x.did, []) if c.kind == "closure")
+            for _, t in x.calls():
+                fn = callee(t)
+                r = (fn or {}).get("res") or {}
+                if r.get("local") and r.get("did") is not None:
+                    cb = self.facts.by_did.get(r["did"])
+                    if cb is not None and cb.kind in ("fn", "assoc_fn") and cb.did not in slot_dids and cb.did not in self.release_prims:
+                        todo.append(cb)
+        return out
+
     def derives_from_incoming(self, e, b):
         """the data operand of a handle aggregate comes from a pointer this function received
         (parameter, load of the data atom, field of self) rather than from a fresh allocation/tag"""
@@ -185,6 +211,12 @@ class A2:
         seen = {}
         for (s, d) in zip(path, path[1:]):
             r = edges.get((s, d))
+            if r is not None and r[0] == "notin":
+                # `match x & 1 { 0 => .., 1 => .., _ => .. }`: the fall-through arm cannot be taken
+                x = canon(r[1])
+                if isinstance(x, tuple) and x[0] == "bin" and x[1] == "BitAnd" and any(isinstance(y, tuple) and y[0] == "const" and y[1] == 1 for y in (x[2], x[3])) \
+                        and {0, 1} <= set(r[2]):
+                    return False
             if r is None or r[0] not in ("eq", "ne"):
                 continue
             for (x, c) in ((canon(r[1]), canon(r[2])), (canon(r[2]), canon(r[1]))):
@@ -314,7 +346,7 @@ def run(facts):
                 continue
             # a slot function whose body is a with_mut closure: analyse closure inline (summary of closure)
             vecs = dict(a2.summary(b))
-            for c in facts.children.get(b.did, []):
+            for c in a2.closures_under(b):
                 if c.kind == "closure":
                     cv = a2.summary(c)
                     merged = {}
